@@ -55,6 +55,10 @@ func corpus(c *ctx, r *fw.Rand) pkt {
 		return pkt{rfc.EthIPv4, ip4(c, rfc.ProtoUDP, u.Bytes4(c.P4, c.S4, true), uint16(r.U32()))}
 	case 5: // UDP v6
 		u := rfc.UDP{SrcPort: uint16(1024 + r.Intn(60000)), DstPort: c.UDPPort, Payload: r.Bytes(r.Intn(200))}
+		if r.Chance(1, 3) { // UDP v4 with trailing bytes beyond the UDP length (padding inside the IP payload)
+			b := append(u.Bytes4(c.P4, c.S4, true), r.Bytes(1+r.Intn(1400))...)
+			return pkt{rfc.EthIPv4, ip4(c, rfc.ProtoUDP, b, uint16(r.U32()))}
+		}
 		return pkt{rfc.EthIPv6, ip6(c, rfc.ProtoUDP, u.Bytes6(c.P6, c.S6, true))}
 	case 6, 7: // SYN to the listener with options
 		var o []byte
@@ -84,7 +88,13 @@ func corpus(c *ctx, r *fw.Rand) pkt {
 		}
 		return pkt{rfc.EthIPv4, ip4(c, rfc.ProtoTCP, t.Bytes4(c.P4, c.S4, true), uint16(r.U32()))}
 	case 8, 9, 10: // segment for the established connection, in or near the window
-		fl := []uint8{rfc.ACK, rfc.ACK | rfc.PSH, rfc.ACK | rfc.FIN, rfc.RST, rfc.RST | rfc.ACK, rfc.SYN, rfc.SYN | rfc.ACK, rfc.ACK | rfc.URG, 0, 0x3f}[r.Intn(10)]
+		// mostly segments that keep the connection alive (so that sequences of out-of-order
+		// data, FINs with payload and gap fillers build up); one in six carries a flag
+		// combination that may end it
+		fl := []uint8{rfc.ACK, rfc.ACK | rfc.PSH, rfc.ACK | rfc.FIN, rfc.ACK | rfc.FIN | rfc.PSH, rfc.ACK | rfc.URG, rfc.ACK}[r.Intn(6)]
+		if r.Chance(1, 6) {
+			fl = []uint8{rfc.RST, rfc.RST | rfc.ACK, rfc.SYN, rfc.SYN | rfc.ACK, 0, 0x3f, rfc.FIN, rfc.SYN | rfc.FIN}[r.Intn(8)]
+		}
 		seq := c.ConnSeq + uint32(int32(r.Intn(2000))-200)
 		if r.Chance(1, 4) {
 			seq = r.U32()
